@@ -18,8 +18,8 @@ type C20Case struct {
 	Genome      GenomeSpec `json:"genome"`
 	Trials      int        `json:"trials"`
 	Generations int        `json:"generations"`
-	SolvedAt    []int      `json:"solved_at"` // per trial: generation reported solved, -1 = never
-	Fault       string     `json:"fault"`     // none | error | cancel
+	SolvedAt    []int      `json:"solved_at"`            // per trial: generation reported solved, -1 = never
+	Fault       string     `json:"fault"`                // none | error | cancel
 	ErrKind     string     `json:"error_kind,omitempty"` // plain | canceled | deadline: what the evaluator's own error wraps (the run's context stays alive)
 	FaultTrial  int        `json:"fault_trial"`
 	FaultGen    int        `json:"fault_generation"`
@@ -62,7 +62,9 @@ type protoEvent struct {
 	note  string
 }
 
-func (e protoEvent) String() string { return fmt.Sprintf("%s(%d,%d)%s", e.kind, e.trial, e.gen, e.note) }
+func (e protoEvent) String() string {
+	return fmt.Sprintf("%s(%d,%d)%s", e.kind, e.trial, e.gen, e.note)
+}
 
 var errInjected = errors.New("injected evaluator failure")
 
